@@ -317,6 +317,11 @@ pub struct ServerSpec {
     /// trailing characters
     #[serde(default)]
     pub seed_written: Option<String>,
+    /// how a configuration file is laid out: 0 = the keys in the README's order; anything else
+    /// seeds a shuffle of the keys, comment lines, and (where it changes nothing: statistics off)
+    /// a `persistence_directory:` key left blank
+    #[serde(default)]
+    pub layout: u64,
 }
 
 impl ServerSpec {
@@ -343,6 +348,7 @@ impl ServerSpec {
             raw_text: None,
             stats_limit: None,
             seed_written: None,
+            layout: 0,
         }
     }
 }
@@ -375,6 +381,13 @@ pub enum Forgery {
     MidpointOutsideWindow { before: bool },
     /// proof for a different leaf (nonce/request altered before hashing)
     WrongLeaf,
+    /// a replay dressed up: the signed part belongs to a different request, PATH is emptied, INDX
+    /// is 0 and an unsigned top-level ROOT carries the leaf hash of the client's own request
+    /// (what a verifier that looks for ROOT outside the signed SREP would compare with)
+    LooseRoot,
+    /// an unsigned top-level copy of a tag that counts only inside the signed parts, with a
+    /// different value (decoration: by itself it leaves a response as authentic as it was)
+    ShadowTag { tag: String, seed: u64 },
     /// index changed to another in-range value, path untouched
     WrongIndex(u32),
     /// add / remove one path element
